@@ -264,7 +264,17 @@ Definition spec_op (s : sstate) (o : op) (err : Z) (la : addr) (lp : Z) : sstate
                         (if nicid =? 0
                          then match filter (fun n => filter_ok s n a) [1; 2] with
                               | [n] => n
-                              | [] => owner_of s a
+                              | [] =>
+                                  (* no NIC accepts the address now, yet the bind may succeed on an
+                                     address that lingers (known finding): the endpoint is then pinned
+                                     to the NIC still holding it - the one the monitor saw accept a
+                                     packet for it, otherwise unknown *)
+                                  let o := owner_of s a in
+                                  if negb (o =? 0) || isNil a then o
+                                  else match filter (fun n => memNA (n, a) (ss_held s)) [1; 2] with
+                                       | [n] => n
+                                       | _ => -1
+                                       end
                               | _ => -1
                               end
                          else nicid) 1 in
